@@ -4,5 +4,5 @@ CONSTANTS
   MaxPkRot = 3
   VSet = {0, 1, 2, 3, 4}
   HeadSet = {1, 2, 3, 4, 5}
-INVARIANTS PropAcceptsIdeal PropPiecewise PropRejectsEager Export
+INVARIANTS PropAcceptsIdeal PropPiecewise PropRejectsEager PropRejectsSharedAncillary Export
 CHECK_DEADLOCK FALSE
